@@ -38,6 +38,7 @@ func (c *Ctx) osCall(method, arg string) IM {
 }
 
 func c05(c *Ctx) {
+	c.shortDatabaseTolerated("open-seq")
 	c.NoDiscardedErrors("errors/none-dropped", []string{"litefs", "internal", "chunk", "fuse"}, discardCore, 40)
 	p := c.P
 	c.ltxPublication()
@@ -229,4 +230,21 @@ func (c *Ctx) rollbackFamily(prefix string) {
 		"every step of rollbackJournal propagates its error", "a failed page restore followed by journal removal corrupts the database")
 	c.ExpectAll(prefix+"/segment-invalidate", c.CallArgs("litefs.(*DB).rollbackJournalSegment", call("writeDatabasePage"), 4), "true", 1, "rolled-back pages invalidate the kernel page cache", "stale cached pages of the aborted transaction stay visible")
 
+}
+
+// shortDatabaseTolerated (C05, C16): at start-up a database file that ends
+// early - on a page boundary (io.EOF) or inside a page (io.ErrUnexpectedEOF) -
+// is not an error: the newest LTX file is re-applied afterwards.
+func (c *Ctx) shortDatabaseTolerated(prefix string) {
+	p := c.P
+	idf := "litefs.(*DB).initDatabaseFile"
+	cp := `ltx\.ChecksumPages\(.*\)#1`
+	notEOF := G(`^\(`+cp+` == io\.EOF\)$|^\(io\.EOF == `+cp+`\)$|^errors\.Is\(`+cp+`, io\.EOF\)$`, false)
+	notUEOF := G(`^\(`+cp+` == io\.ErrUnexpectedEOF\)$|^\(io\.ErrUnexpectedEOF == `+cp+`\)$|^errors\.Is\(`+cp+`, io\.ErrUnexpectedEOF\)$`, false)
+	c.GuardedPaths(prefix+"/short-database-tolerated", idf, func(in ssa.Instruction) bool {
+		r, ok := in.(*ssa.Return)
+		return ok && len(r.Results) == 1 && strings.Contains(p.Render(returnedValue(r, 0)), "ChecksumPages")
+	}, [][]*Guard{{notEOF}, {notUEOF}}, 1,
+		"initDatabaseFile fails on a checksum-scan error only when it is neither io.EOF nor io.ErrUnexpectedEOF",
+		"a kill inside the write of a page (import, apply) leaves a file ending inside a page: the node must start and re-apply the newest LTX file, not fail for good")
 }
